@@ -58,6 +58,15 @@ fn join(lx: &[(String, String)], tail: &str) -> String {
     s
 }
 
+
+pub const RECURSIVE_TYPE_PROGRAMS: &[(&str, &str)] = &[
+    ("enum-cycle-used-by-struct", "struct Wrapper { id: u8, inner: Node }\nenum Node { Leaf, Branch(Link) }\nenum Link { End, Next(u8, Node) }\npub fn main(w: Wrapper, x: u8) -> u8 {\n  w.id + x\n}\n"),
+    ("struct-cycle-used-by-structs", "struct A { b: B }\nstruct B { c: [C; 1] }\nstruct C { b: (u8, B) }\nstruct Z { c: C }\npub fn main(a: A, z: Z, x: u8) -> u8 {\n  x\n}\n"),
+    ("three-cycle-used-by-enum", "enum O { U, V(P) }\nenum P { U, V(Q) }\nstruct Q { r: R }\nenum R { U, V(P) }\npub fn main(o: O, x: u8) -> u8 {\n  x\n}\n"),
+    ("self-struct", "struct S { s: S, v: u8 }\npub fn main(s: S, x: u8) -> u8 {\n  x\n}\n"),
+    ("self-enum-in-array-param", "enum E { A, B([E; 2]) }\npub fn main(e: [E; 2], x: u8) -> u8 {\n  x\n}\n"),
+];
+
 pub const SUBST_ALPHABET: &[&str] = &[
     "const", "struct", "enum", "fn", "let", "if", "else", "match", "mut", "as", "pub", "for", "in", ".", "..", "..=", ",", ";", ":", "::", "->", "=>", "(", ")", "{", "}", "[", "]", "+", "-", "/", "*", "%", "&",
     "&&", "|", "||", "^", "!", "=", "==", "!=", ">", "<", ">=", "<=", ">>", "<<", "+=", "-=", "<<=", "/*", "*/", "//", "x", "S", "join", "join_iter", "max", "min", "true", "_", "0", "1", "255", "256", "0u8",
@@ -162,6 +171,10 @@ pub fn corpus(tier: Tier) -> Vec<(String, String)> {
         let chain: Vec<String> = (0..60).map(|k| format!("(x & {}u8)", k + 1)).collect();
         out.push(("hand:deep-nesting".into(), format!("pub fn main(x: u8) -> u8 {{\n  let a = {e};\n  let b = {blocks};\n  let c = {ifs};\n  let d = {};\n  a ^ b ^ c ^ d\n}}\n", chain.join(" ^ "))));
     }
+    // type definitions of infinite size (must be rejected, never crash the compiler)
+    for (name, src) in RECURSIVE_TYPE_PROGRAMS {
+        out.push((format!("hand:recursive-{name}"), src.to_string()));
+    }
     out.push((
         "hand:consts-literal".into(),
         "const A: usize = 2usize;\nconst B: usize = A + 1usize;\nconst C: usize = max(A, B) - 1usize;\nconst D: u8 = 3u8;\nconst E: u8 = min(D, 9u8) + D;\nconst F: bool = true;\nconst G: bool = F;\nconst H: i8 = -5i8;\nconst I: i8 = H - 1i8;\npub fn main(x: [u8; C], y: [i8; B]) -> (u8, i8, bool) {\n  let mut s = E;\n  for e in x {\n    s = s ^ e;\n  }\n  (s + D, y[A] + I, G ^ F)\n}\n".into(),
@@ -232,16 +245,34 @@ pub fn run(tier: Tier) -> i32 {
     // are legitimately expensive: their perturbations would trip the per-case deadline without
     // being hangs. They are timed in-process here and left out (listed in the evidence).
     let mut skipped_slow: Vec<String> = vec![];
-    corp.retain(|(name, text)| {
-        let t0 = Instant::now();
-        set_context(&format!("corpus program {name}\n{text}"));
-        let _ = catch(|| garble_lang::compile(text).map(|_| ()));
-        let slow = t0.elapsed() > Duration::from_millis(250);
-        if slow {
-            skipped_slow.push(format!("{name} ({:.1}s)", t0.elapsed().as_secs_f64()));
+    {
+        // timed in isolated workers: an original that crashes or hangs the front end is a violation
+        // of its own and must not take the harness down with it
+        let originals: Vec<Vec<u8>> = corp.iter().map(|(_, t)| t.clone().into_bytes()).collect();
+        let verdict: Mutex<Vec<Option<u128>>> = Mutex::new(vec![None; corp.len()]);
+        run_cases("frontend-timed", &originals, Duration::from_millis(60_000), 4 * 1024 * 1024, &budget, |i, o| {
+            let (name, text) = &corp[i];
+            let case = || json!({"kind": "frontend", "perturbation": "original", "origin": name, "text": text});
+            match o {
+                WOutcome::Reply(r) => {
+                    let ms = r.split('|').next().and_then(|x| x.parse::<u128>().ok()).unwrap_or(0);
+                    verdict.lock().unwrap()[i] = Some(ms);
+                }
+                WOutcome::Hang => coll.push(Violation::new("C07", "frontend/hang", "hang", format!("original:{name}"), case(), "no answer within 60 s; worker killed")),
+                WOutcome::Died(st) => coll.push(Violation::new("C07", "frontend/abort", "abort", format!("original:{name}"), case(), format!("worker process died: {st}"))),
+            }
+        });
+        let verdict = verdict.into_inner().unwrap();
+        let mut keep = vec![];
+        for (i, c) in corp.drain(..).enumerate() {
+            match verdict[i] {
+                Some(ms) if ms <= 250 => keep.push(c),
+                Some(ms) => skipped_slow.push(format!("{} ({:.1}s)", c.0, ms as f64 / 1000.0)),
+                None => {} // reported above (or not reached within the budget)
+            }
         }
-        !slow
-    });
+        corp = keep;
+    }
     let mut cases: Vec<Case> = vec![];
     let kinds_count: Mutex<BTreeMap<String, u64>> = Mutex::new(BTreeMap::new());
     let subst: Vec<&str> = if tier == Tier::Quick { SUBST_ALPHABET.iter().step_by(3).copied().collect() } else { SUBST_ALPHABET.to_vec() };
